@@ -257,7 +257,14 @@ func (r *Run) Violations() int {
 }
 
 // Finish writes the evidence file and returns the process exit code.
+// PreFinish hooks run at the start of Finish (child or parent), before results are written;
+// harness packages register process-wide monitors here (e.g. wire's header-reuse monitor).
+var PreFinish []func(r *Run)
+
 func (r *Run) Finish(rule string, assumptions []string) int {
+	for _, f := range PreFinish {
+		f(r)
+	}
 	r.mu.Lock()
 	defer r.mu.Unlock()
 	if r.childOut != "" {
@@ -350,8 +357,8 @@ func (r *Rand) Intn(n int) int {
 	}
 	return int(r.U64() % uint64(n))
 }
-func (r *Rand) Range(lo, hi int) int { return lo + r.Intn(hi-lo+1) } // inclusive
-func (r *Rand) Bool() bool           { return r.U64()&1 == 1 }
+func (r *Rand) Range(lo, hi int) int     { return lo + r.Intn(hi-lo+1) } // inclusive
+func (r *Rand) Bool() bool               { return r.U64()&1 == 1 }
 func (r *Rand) Chance(num, den int) bool { return r.Intn(den) < num }
 func (r *Rand) Bytes(n int) []byte {
 	b := make([]byte, n)
